@@ -92,6 +92,7 @@ class FakeCon:
 
     def __init__(self):
         self.in_transaction = False
+        self.affinity = True  # bound values are stored the way the declared column type's affinity dictates
         self.log = []
         self.tables = {}  # name -> [(col, type)]
         self.rows = []  # (table, {col: value}) in insertion order, all rows (pending included)
@@ -160,7 +161,8 @@ class FakeCon:
                         raise ValueError(f"table {name} has no column named {c}")
                 if marks.count("?") != len(cols) or len(values) != len(cols):
                     raise ValueError("Incorrect number of bindings supplied")
-                self.rows.append((name, dict(zip(cols, values))))
+                decl = dict(self.tables[name])
+                self.rows.append((name, {c: (_stored(v, decl[c]) if self.affinity else v) for c, v in zip(cols, values)}))
                 if not self.in_transaction:
                     self.autocommit_inserts += 1
                 out = []
@@ -257,11 +259,52 @@ UNIVERSE = [
 ]
 
 
+NUMERIC_LOOKING = {1: "007", 2: "1e3", 3: " 42", 5: "12.50", 6: "-0"}  # text that a column without TEXT affinity would turn into a number
+
+
 def _vals(ui, i):
     out = {}
     for t, f in UNIVERSE[ui][1]:
-        out[f] = (100 + i) if t == "varint" else f"{f}{i}"
+        out[f] = (100 + i) if t == "varint" else NUMERIC_LOOKING.get(i, f"{f}{i}")
     return out
+
+
+RE_NUMERIC_TEXT = re.compile(r"^\s*[+-]?(\d+\.?\d*|\.\d+)([eE][+-]?\d+)?\s*$")
+
+
+def _affinity(decl):
+    """SQLite's column affinity from the declared type (datatype3.html, 3.1)"""
+    d = decl.upper()
+    if "INT" in d:
+        return "INTEGER"
+    if "CHAR" in d or "CLOB" in d or "TEXT" in d:
+        return "TEXT"
+    if "BLOB" in d or not d.strip():
+        return "BLOB"
+    if "REAL" in d or "FLOA" in d or "DOUB" in d:
+        return "REAL"
+    return "NUMERIC"
+
+
+def _stored(value, decl):
+    """the value SQLite stores for a bound value in a column declared `decl` (type affinity applied on insert)"""
+    aff = _affinity(decl)
+    if isinstance(value, bool) or value is None or isinstance(value, bytes) or aff == "BLOB":
+        return value
+    if aff == "TEXT":
+        return value if isinstance(value, str) else (str(value) if isinstance(value, int) else repr(value))
+    if isinstance(value, str):
+        if not RE_NUMERIC_TEXT.match(value):
+            return value
+        v = float(value)
+        if aff != "REAL" and v.is_integer() and abs(v) < 2**63:
+            return int(v)
+        return v
+    if isinstance(value, int) and aff == "REAL":
+        return float(value)
+    if isinstance(value, float) and aff != "REAL" and value.is_integer() and abs(value) < 2**63:
+        return int(value)
+    return value
 
 
 def history(k: int = 3, first: int = 0, batch: int = 1):
@@ -408,6 +451,7 @@ def values():
             if j == q:
                 y = cands[q]
         con = FakeCon()
+        con.affinity = False  # this obligation is about the bound values alone; the columns are placeholders
         con.tables["t/v"] = [("x", "TEXT"), ("y", "TEXT"), ("_source", "TEXT"), ("_classification", "TEXT"), ("_generated", "TIMESTAMPTZ"), ("_version", "INTEGER")]
         rec = D(x, y, _source="S", _generated=_dt.datetime(2020, 1, 1, tzinfo=UTC))
         try:
@@ -693,8 +737,8 @@ def _real_run(seq, batch, observe=True):
             if len(back) != len(seq):
                 probs.append(f"RecordReader returns {len(back)} records for {len(seq)} written (sequence {seq})")
             else:
-                want = sorted((UNIVERSE[ui][0].lower(), tuple(sorted(_vals(ui, i).items()))) for i, ui in enumerate(seq))
-                got = sorted((r._desc.name.lower(), tuple(sorted((f, getattr(r, f)) for f in _vals_fields(r) if getattr(r, f) is not None))) for r in back)
+                want = sorted(((UNIVERSE[ui][0].lower(), tuple(sorted(_vals(ui, i).items()))) for i, ui in enumerate(seq)), key=repr)
+                got = sorted(((r._desc.name.lower(), tuple(sorted((f, getattr(r, f)) for f in _vals_fields(r) if getattr(r, f) is not None))) for r in back), key=repr)
                 if got != want:
                     probs.append(f"records read back differ (sequence {seq}): {got[:3]} vs written {want[:3]}")
     return probs, dump
